@@ -353,7 +353,7 @@ func visitInstr(fr *frame, instr ssa.Instruction) continuation {
 	if st := fr.i.st; st != nil {
 		st.steps++
 		if st.steps > st.maxSteps {
-			panic(pathEnd{"step budget exhausted", true})
+			panic(pathEnd{"step budget exhausted at " + stackOf(fr), true})
 		}
 	}
 	switch instr := instr.(type) {
